@@ -39,19 +39,19 @@ macro_rules
               | apply ec_cancelAllFor $hR (NoStart.event $hA)
               | apply ec_cancelKindFor $hR (NoStart.event $hA)
               | apply ec_cancelUserAll $hR (NoStart.event $hA)
-              | apply ec_guardSignal $hR (NoStart.res $hA)
-              | apply ec_signal $hR (NoStart.res $hA)
-              | apply ec_guardWithdraw $hR (NoStart.event $hA) (NoStart.res $hA)
+              | apply ec_guardSignal $hR (And.intro (NoStart.res $hA) (NoStart.cond $hA))
+              | apply ec_signal $hR (And.intro (NoStart.res $hA) (NoStart.cond $hA))
+              | apply ec_guardWithdraw $hR (NoStart.event $hA) (And.intro (NoStart.res $hA) (NoStart.cond $hA))
               | apply ec_timerAdd $hR (NoStart.time $hA)
               | apply ec_wakeWaiters $hR (NoStart.proc $hA)
               | apply ec_timerCancel $hR (NoStart.event $hA)
               | apply ec_timersClear $hR (NoStart.event $hA)
-              | apply ec_cancelAwaiteds $hR (NoStart.event $hA) (NoStart.res $hA)
-              | apply ec_poolDropHolder $hR (NoStart.res $hA)
-              | apply ec_dropResources $hR (NoStart.res $hA)
+              | apply ec_cancelAwaiteds $hR (NoStart.event $hA) (And.intro (NoStart.res $hA) (NoStart.cond $hA))
+              | apply ec_poolDropHolder $hR (And.intro (NoStart.res $hA) (NoStart.cond $hA))
+              | apply ec_dropResources $hR (And.intro (NoStart.res $hA) (NoStart.cond $hA))
               | apply ec_guardWaitEnter $hR
-              | apply ec_guardWaitLeave $hR (NoStart.event $hA) (NoStart.res $hA)
-              | apply ec_poolMug $hR (NoStart.intr $hA) (NoStart.res $hA)
+              | apply ec_guardWaitLeave $hR (NoStart.event $hA) (And.intro (NoStart.res $hA) (NoStart.cond $hA))
+              | apply ec_poolMug $hR (NoStart.intr $hA) (And.intro (NoStart.res $hA) (NoStart.cond $hA))
               | apply ec_emit $hR
               | apply ec_modProc $hR
               | apply ec_setGuardQ $hR
@@ -100,7 +100,7 @@ theorem es_poolLoop (w : World) (p : Pid) (pl rem initially : Nat) (preempt : Bo
   · rename_i x hx
     dsimp only
     split
-    · exact ec_signal hR hA.res _ _ (hupd _ rem (hpre _ (x.inUse + rem) h))
+    · exact ec_signal hR ⟨hA.res, hA.cond⟩ _ _ (hupd _ rem (hpre _ (x.inUse + rem) h))
     · have h1 : R (if x.cap - x.inUse > 0 then
           (poolUpdateRecord (recordPool (setPoolInUse w pl (x.inUse + (x.cap - x.inUse))) pl) pl p (x.cap - x.inUse),
             rem - (x.cap - x.inUse)) else (w, rem)).1 := by
@@ -119,12 +119,13 @@ theorem es_poolLoop (w : World) (p : Pid) (pl rem initially : Nat) (preempt : Bo
             (poolUpdateRecord (recordPool (setPoolInUse w pl (x.inUse + (x.cap - x.inUse))) pl) pl p (x.cap - x.inUse),
               rem - (x.cap - x.inUse)) else (w, rem)).2)).1 := by
         split
-        · exact ec_poolMug hR hA.intr hA.res _ _ _ _ _ h1
+        · exact ec_poolMug hR hA.intr ⟨hA.res, hA.cond⟩ _ _ _ _ _ h1
         · exact h1
       split
       · exact h2
       · exact ec_block hR _ _ _ (ec_guardWaitEnter hR _ _ _ _ h2)
 
+set_option maxHeartbeats 400000 in
 theorem es_poolRollback (w : World) (p : Pid) (pl initially : Nat) (h : R w) : R (poolRollback w p pl initially) := by
   unfold poolRollback; dsimp only; es_peel hR hA h 30
 
@@ -183,8 +184,8 @@ macro_rules
               | apply es_pqGetLoop $hR $hA
               | apply es_pqPutLoop $hR $hA
               | apply es_condSignal $hR $hA
-              | apply ec_signal $hR (NoStart.res $hA)
-              | apply ec_guardWaitLeave $hR (NoStart.event $hA) (NoStart.res $hA)
+              | apply ec_signal $hR (And.intro (NoStart.res $hA) (NoStart.cond $hA))
+              | apply ec_guardWaitLeave $hR (NoStart.event $hA) (And.intro (NoStart.res $hA) (NoStart.cond $hA))
               | apply ec_cancelKindFor $hR (NoStart.event $hA)
               | apply ec_cancelUserAll $hR (NoStart.event $hA)
               | apply ec_recordPool $hR
